@@ -744,6 +744,7 @@ func (db *SpecDB) LoadSpecFile(path string, trusted bool) error {
 						cl.Type = "before:" + cl.Type
 					}
 					if rhs[0] == "after" || rhs[0] == "before" {
+						// "after KEY N resultI": the call's i-th result
 						if len(rhs) < 4 {
 							return fail("bind name type := after key n expr")
 						}
